@@ -303,11 +303,11 @@ def plan(tier):
     if tier == 'quick':
         jobs += [('exh1', i, 8, tier) for i in range(8)]
         jobs += [('exh2', i, (32, 48), tier) for i in range(32)]
-        jobs += [('deep', i, 500, tier) for i in range(24)]
-        jobs += [('rand', i, 500, tier) for i in range(8)]
-        jobs += [('bytes', i, 500, tier) for i in range(8)]
-        jobs += [('p2sh', i, 250, tier) for i in range(4)]
-        jobs += [('succ', i, 400, tier) for i in range(8)]
+        jobs += [('deep', i, 1500, tier) for i in range(24)]
+        jobs += [('rand', i, 1000, tier) for i in range(8)]
+        jobs += [('bytes', i, 1000, tier) for i in range(8)]
+        jobs += [('p2sh', i, 500, tier) for i in range(8)]
+        jobs += [('succ', i, 800, tier) for i in range(8)]
     else:
         jobs += [('exh1', i, 8, tier) for i in range(8)]
         jobs += [('exh2', i, (240, 1), tier) for i in range(240)]
